@@ -49,7 +49,6 @@ TECHNIQUE = ("static analysis: symbolic folding of hashutil.py to derivation ter
              "the specification documents and a compat-frozen table; call-site chains as normalised term trees")
 
 HU = "allmydata.util.hashutil"
-NSMOD = "allmydata.util.netstring"
 
 
 # ======================================================================= terms
@@ -858,10 +857,6 @@ def show_chain(c):
     return "%s(%s)" % (c[1], ", ".join(show_chain(x) for x in c[2]))
 
 
-def node_of(fn, pred):
-    return [n for n in fn.cfg().nodes if pred(n)]
-
-
 def return_chains(idx, fn):
     fnorm = FlowNorm(fn)
     out = []
@@ -965,7 +960,6 @@ def run(ctx: Context):
     with ctx.rule("C17.2", "R5", "the derivations whose tag and construction docs/specifications spell out fold to "
                   "the documented term (lease.rst: client/file/bucket renewal and cancel secrets; "
                   "file-encoding.rst + uri.rst: CHK storage index)", expected=7) as r:
-        sym_leaves = {}
         for kind, stem in (("renewal", "renewal"), ("cancel", "cancel")):
             spec = {
                 "my_%s_secret_hash" % stem: lease.term("client renewal secret", kind, {"lease secret": P0}),
